@@ -26,6 +26,11 @@ func genPrelude() []T {
 		Asg("rec", Fn(Ps("n"), If(Bin(">", N("n"), I(0)), Blk(Yld(N("n")), Call("rec", Bin("-", N("n"), I(1))))))),
 		Asg("mkgen", Fn(Ps("base"), Fn(P, Blk(Yld(N("base")), Yld(Bin("+", N("base"), I(1))))))),
 		Asg("cg", Call("mkgen", I(10))),
+		Asg("cgb", Call("mkgen", I(20))),
+		// a generator made by a closure-returning maker whose loop bound is captured
+		Asg("mkr", Fn(Ps("n"), Fn(P, For("i", Call("fromto", I(0), N("n")), Yld(N("i")))))),
+		Asg("ra", Call("mkr", I(2))),
+		Asg("rb", Call("mkr", I(4))),
 		Asg("callgen", Fn(P, Blk(Yld(Call("id", I(1))), Asg("x", Call("id", I(2))), Yld(N("x"))))),
 		Asg("inner", Fn(P, Yld(I(5)))),
 		Asg("yv", Fn(P, Blk(Asg("a", Call("inner")), Yld(N("a"))))),
@@ -51,6 +56,7 @@ func baseGens() []genExpr {
 		{"nest", Call("nest")},
 		{"rec", Call("rec", I(3))},
 		{"captured", Call("cg")},
+		{"captured-bound", Call("rb")},
 		{"callgen", Call("callgen")},
 		{"yieldvalue", Call("yv")},
 		{"none", Call("none")},
@@ -160,6 +166,8 @@ func histories() []history {
 		{"earlier-nested-calls", []T{Asg("t", Call("id", Call("id", Call("id", I(1)))))}},
 		{"abandoned-loop", []T{Asg("t", Call("ab"))}},
 		{"earlier-gen-loop", []T{For("x", Call("cg"), Asg("t", N("x")))}},
+		{"earlier-loop-over-sibling-closure", []T{For("x", Call("cgb"), Asg("t", N("x"))), For("x", Call("ra"), Asg("t", N("x")))}},
+		{"loop-variable-is-existing-local", []T{Asg("i", I(5)), Asg("j", I(6))}},
 	}
 }
 
@@ -257,12 +265,17 @@ func c02Families(thorough bool) []progFamily {
 			for _, a := range base {
 				for _, b := range base {
 					for _, p := range []placement{pls[0], pls[1], pls[5]} {
-						for _, st := range []bodyStep{steps[0], steps[1], steps[3], steps[8]} {
+						for _, st := range []bodyStep{steps[0], steps[1], steps[3], steps[5], steps[6], steps[8]} {
 							loop := ForN([]string{"i", "j"}, []T{a.E, b.E}, zipBody([]string{"i", "j"}, st.S...))
 							if !emit(p.F(nil, loop)) {
 								return
 							}
 						}
+					}
+					// the first loop variable is a variable that already exists, the second is new
+					preLoop := ForN([]string{"r", "zj"}, []T{a.E, b.E}, Asg("acc", Bin("+", N("acc"), L(L(N("r"), N("zj"))))))
+					if !emit([]T{Asg("run", Fn(Ps("r"), Blk(Asg("acc", L()), preLoop, L(N("acc"), N("r"))))), Call("run", I(0))}) {
+						return
 					}
 					if thorough {
 						for _, c := range base[:6] {
